@@ -692,7 +692,8 @@ func TestVerif_C07_recall(t *testing.T) {
 		msg, r := c07RunRecall(c)
 		col.Landed()
 		col.Case(c, c.N >= 500, append(r.labelList(), extra...)...)
-		if msg == "" {
+		if msg == "" && os.Getenv("VERIF_C07_DUMP") == "" {
+			// (floor-measurement campaigns record every case and judge nothing, so that the low tail is not censored)
 			msg = c07Judge(c, r.points)
 		}
 		if msg != "" {
